@@ -56,6 +56,11 @@ def templates(rng, g):
     out.append(("captured-unused-through-return", f"({{X}} ((ㅈ ㅎ) ㅎ) ㅎㄴ) ㄱㅅㅎㄴ"))
     out.append(("captured-unused-as-key", f"({{X}} ((ㅈ ㅎ) ㅎ) ㅎㄴ) ㄴ ㅅㅈㅎㄷ"))
     out.append(("captured-unused-in-exception", f"(((ㄷ ({{X}} ((ㅈ ㅎ) ㅎ) ㅎㄴ) ㄷㅂㅎㄷ) ㄷㅈㅎㄴ) (ㄱ ㄱㅇㄱ ㅎㄴ ㅎ) ㅅㄷㅎㄷ)"))
+    # a *failed* dictionary lookup inspects the keys only: the values (and what they contain) stay unevaluated also on the
+    # not-found path (seeded change S03i printed the whole dictionary into the error message)
+    out.append(("dict-miss-value-unneeded", f"(ㄹ (ㄴ {{X}} ㅅㅈㅎㄷ) ㅎㄴ) (ㄴ ㄱㅇㄱ ㅎㄴ ㅎ) ㅅㄷㅎㄷ"))
+    out.append(("dict-miss-nested-value-unneeded", f"(ㄹ (ㄴ ({{X}} ㅁㄹㅎㄴ) ㄷ ㄷ ㅅㅈㅎㅁ) ㅎㄴ) (ㄴ ㄱㅇㄱ ㅎㄴ ㅎ) ㅅㄷㅎㄷ"))
+    out.append(("dict-miss-uncaught", f"ㄹ (ㄴ {{X}} ㅅㅈㅎㄷ) ㅎㄴ"))
     out.append(("try-handler-list-unneeded", f"({gi()} ㅁㄹㅎㄴ) {{X}} ㅅㄷㅎㄷ"))
     out.append(("fold-init-unused", f"(ㄴ ㅁㄹㅎㄴ) {{X}} (ㄴㅇㄱ ㅎ) ㅅㄹㅎㄹ".replace("(ㄴㅇㄱ ㅎ)", "(ㄱㅇㄱ ㅎ)")))
     # arguments handed to a user function *by a built-in* (fold / filter / pipe / spread / collect) that the
@@ -110,7 +115,7 @@ SPEC = {
     'cases': cases,
     'big': True,
     'stream': 'C03 marked-position stream',
-    'rule': '52 templates with a marked non-strict position (unused argument, arguments and list elements passed on by fold / filter / pipe (also results of intermediate pipe stages) / spread / collect / map to functions that ignore them, exception contents built / thrown / caught but not inspected, unselected Boolean branch, operands after the '
+    'rule': '55 templates with a marked non-strict position (unused argument, arguments and list elements passed on by fold / filter / pipe (also results of intermediate pipe stages) / spread / collect / map to functions that ignore them, exception contents built / thrown / caught but not inspected, unselected Boolean branch, operands after the '
             'deciding one of Boolean ㄱ / ㄷ, uninspected list elements / dictionary values, map over unused elements, ㄴ after '
             'the first difference, handler of a ㅅㄷ that does not raise, captured but unused argument) × random surrounding '
             'sub-expressions × 8 payloads (user exception, type error, non-terminating recursion bounded only by the '
